@@ -177,6 +177,13 @@ def compare_state(scene, st, after_reopen=False, findings=None):
     gch = scene.observe_group_children()
     if gch != sorted(_seq(st["s"]["gch"])):
         raise Mismatch("api-group-children", f"holes in group.children {gch} expected {sorted(_seq(st['s']['gch']))}")
+    plain = st["s"].get("plain", "none")
+    if plain != "none":
+        live, problems = scene.observe_plain()
+        if live != (plain == "live"):
+            raise Mismatch("plain-child-live", f"plain child in group.children: {live}, expected state {plain}")
+        if bool(problems) != (plain == "dangling"):
+            raise Mismatch("plain-child-layout", f"file layout problems {problems[:2]}, expected state {plain}")
     # (2) raw datasets
     raw = scene.observe_raw(with_attrs=after_reopen)
     want_labels = {LABEL_OF.get(x, x) for x in _seq(st["s"]["labels"])}
